@@ -8,6 +8,7 @@
 package c13
 
 import (
+	"bytes"
 	"fmt"
 	"strings"
 
@@ -28,14 +29,24 @@ func (Driver) Info() core.Info {
 		Title: "collection, set and sequence functions match reference semantics",
 		Rule: "case = (function, wholly known argument list). 27 functions x an equal share of argument lists drawn per function from its parameter constraints " +
 			"(empty and non-empty collections, duplicates, nested nulls, list/tuple and map/object forms, indices/sizes/steps in -(len+2)..(len+2) plus halves, 2^40 and the int64 edges; " +
-			"~9% of lists are pushed out of the domain: top-level null, argument of another type, wrong count) plus, in batch 0 of every run, a fixed corpus (rows transcribed by hand from the table tests, " +
-			"boundary cases, defect witnesses; a row with an expectation also calibrates the reference) and seven completely enumerated sub-spaces (see exhaustive_subspaces). " +
-			"Oracle: Call fails exactly where the reference says 'outside the documented domain'; otherwise the result has exactly the reference's type and is model-equal to it; never a Go panic. " +
+			"one collection argument in 16 is an EMPTY list / set / map whose element type is drawn from the whole type language, cty.DynamicPseudoType and types with dynamic parts included; " +
+			"one range case in 6 has a step that is not a short binary fraction (0.1, 0.3, 1/3, ...) with operands at 24, 53, 64 or 512 bits, so that the running sums round; " +
+			"~9% of lists are pushed out of the domain: top-level null, argument of another type, wrong count). One round in 32 is a round of HISTORIES (history.go): a first call, then 1..3 calls of other " +
+			"functions of the family that are given a value already in play (an earlier argument, a member of one, an earlier result), then the first call again; the library gets the values themselves, the " +
+			"reference gets copies rebuilt through the constructors before the first call, so nothing a call does to a value can reach the expectation of a later call. " +
+			"Plus, in batch 0 of every run, a fixed corpus (rows transcribed by hand from the table tests, boundary cases, defect witnesses, 11 scripted histories; a row with an expectation also calibrates " +
+			"the reference) and eight completely enumerated sub-spaces (see exhaustive_subspaces). " +
+			"Oracle: Call fails exactly where the reference says 'outside the documented domain'; otherwise the result has exactly the reference's type and is model-equal to it (range: also the same exact numbers); never a Go panic; " +
+			"the complete internal state (VerifFingerprint) of every argument is the same after the call as before it (every call of a history and every second single call; in a history: of every value in play). " +
 			"distinct = hash of (function, %#v of the arguments); non-trivial = the reference is in-domain, so type and value were compared",
 		Assumptions: []string{
 			"trusted base of the reference: cty constructors and read accessors, convert.UnifyUnsafe / convert.Convert (the documented meaning of 'unified type' / 'converted to'; checked by C08/C09), mon.ModelEqual",
 			"set iteration order is asserted only for primitive element types (the only order cty documents); otherwise results are compared as multisets",
-			"numbers are small integers, dyadic fractions, 2^40 and int64 edges, on which arithmetic is exact (rounding is C02/C14's subject); no marks, no unknowns (C04, C12)",
+			"numbers are small integers, dyadic fractions, 2^40 and int64 edges, on which arithmetic is exact; only range is also given numbers on which addition rounds, and its reference is the documented wording taken literally " +
+				"(start, then add the step repeatedly) with big.Float addition as the meaning of adding two cty numbers (result precision = the larger operand precision, round to nearest even; C02/C14's subject); " +
+				"whenever no sum rounds the closed form over exact rationals must agree with it (checked inside the reference). No marks, no unknowns (C04, C12)",
+			"range is not asserted where a running sum and the end are equal under exact comparison but not under documented number equality or the other way round (the library's >= is built from cty's operators; which equality the wording means is not documented), " +
+				"nor where a sum rounds in the one- and two-argument forms (precision of the implicit start / step not documented)",
 			"setsymmetricdifference of more than two sets is the left fold (Appendix A), although one doc comment reads 'in any of the sets but not multiple'",
 			"clauses resting on DESIGN Appendix A alone (no description / table-test row in /repo), counted as clause:*:appendix-only: lookup on objects, compact drops nulls, zipmap last duplicate key wins",
 			"not asserted (counted as oracle:not-asserted): infinite range arguments, dynamically typed null arguments of merge / coalescelist, element types with dynamic parts",
@@ -118,6 +129,11 @@ func (Driver) Run(c *core.Ctx) {
 		}
 		r := c.RNG(i)
 		fd := &Funcs[i%nf]
+		if (i/nf)%historyEvery == historyEvery-1 {
+			// one round in historyEvery is a round of multi-call histories (history.go)
+			runHistory(c, i, r, fd)
+			continue
+		}
 		args := fd.Gen(r)
 		args, pert := perturb(r, args)
 		if pert != "" {
@@ -153,6 +169,7 @@ const (
 	facetType       = "result type differs from the reference"
 	facetValue      = "result value differs from the reference"
 	facetNotKnown   = "result of wholly known arguments is not wholly known, or is marked"
+	facetArgChanged = "a value in play is not the same after the call as before it (a later call given this value cannot match the reference)"
 	facetRefPanic   = "harness: reference implementation panicked"
 	facetFixture    = "harness: reference disagrees with a transcribed fixture"
 	facetFixtureLib = "library disagrees with a transcribed table-test fixture"
@@ -166,32 +183,80 @@ type fixture struct {
 }
 
 func checkCase(c *core.Ctx, idx int64, fd *FnDef, args []cty.Value, fx *fixture) {
+	c.Begin(idx, func() string { return fd.Name + "(" + fmtArgs(args) + ")" })
+	checkCall(c, idx, fd, args, args, fx, "")
+}
+
+// historyClass marks the input class of a disagreement that was observed in a
+// later step of a multi-call history (history.go).
+const historyClass = "after earlier calls on the same values: "
+
+// checkCall runs one call next to the reference. libArgs go to the library;
+// refArgs, structurally the same values, go to the reference and into the
+// witness (in a history they are copies rebuilt through the constructors that
+// share no type or payload with libArgs, so nothing an earlier call did to a
+// library-side value can reach the reference). hist describes the earlier
+// calls of the history ("" for a single call). agreed reports that the
+// library returned a value and that it matched the reference by type and value,
+// reported that a violation (new or known) was reported, argChanged that one of them was a changed argument;
+// call is the text of the call.
+func checkCall(c *core.Ctx, idx int64, fd *FnDef, libArgs, refArgs []cty.Value, fx *fixture, hist string) (got cty.Value, ref Ref, agreed, reported, argChanged bool, call string) {
+	violate := func(site, facet, class, witness, detail string) {
+		reported = true
+		c.Violate(site, facet, class, witness, detail)
+	}
 	site := "stdlib." + fd.Name
-	desc := func() string { return fd.Name + "(" + fmtArgs(args) + ")" }
-	c.Begin(idx, desc)
+	call = fd.Name + "(" + fmtArgs(refArgs) + ")"
+	witness := call
+	if hist != "" {
+		witness = hist + call
+	}
 	c.Count("fn:" + fd.Name)
 
 	// reference
-	var ref Ref
-	ro := core.Guard(func() { ref = fd.Ref(args) })
+	ro := core.Guard(func() { ref = fd.Ref(refArgs) })
 	if ro.Panicked {
-		c.Violate(site, facetRefPanic, "", desc(), ro.PanicMsg+"\n"+ro.Stack)
+		violate(site, facetRefPanic, "", witness, ro.PanicMsg+"\n"+ro.Stack)
 		return
 	}
 
-	// library
-	var got cty.Value
+	// library, with the complete internal state of every argument taken before and after
+	untouched := hist != "" || idx >= 1_000_000_000 || idx%2 == 0 // every call of a history (its first call has an odd or even index like any case), the fixed part, every second single call
+	var before [][]byte
+	if untouched {
+		before = make([][]byte, len(libArgs))
+		for i, a := range libArgs {
+			before[i] = cty.VerifFingerprint(a)
+		}
+	}
 	var err error
-	o := core.Guard(func() { got, err = fd.Fn.Call(args) })
+	o := core.Guard(func() { got, err = fd.Fn.Call(libArgs) })
 	c.Eval(1)
-	witness := desc()
-	class := classify(fd.Name, args)
-	c.Distinct(witness, !ref.Err && !ref.Skip)
+	class := classify(fd.Name, refArgs)
+	if hist != "" {
+		class = historyClass + class
+	}
+	c.Distinct(call, !ref.Err && !ref.Skip)
 
 	if o.Panicked {
 		c.Count("outcome:go-panic")
-		c.Violate(site, "panic: "+core.PanicClass(o.PanicMsg), class, witness, o.PanicMsg+"\n"+o.Stack)
+		violate(site, "panic: "+core.PanicClass(o.PanicMsg), class, witness, o.PanicMsg+"\n"+o.Stack)
 		return
+	}
+	if untouched {
+		c.Count("oracle:arguments-untouched")
+		for i, a := range libArgs {
+			if after := cty.VerifFingerprint(a); !bytes.Equal(after, before[i]) {
+				// reported, and the result is still compared below (it may well be right: the damage shows in later calls)
+				c.Count("outcome:argument-changed")
+				cl := fmt.Sprintf("argument %d (%s) of %d", i, shape(refArgs[i]), len(refArgs))
+				if hist != "" {
+					cl = historyClass + cl
+				}
+				violate(site, facetArgChanged, cl, witness, fmt.Sprintf("argument %d before the call: %s\nafter the call: %s", i, before[i], after))
+				argChanged = true
+			}
+		}
 	}
 	if err == nil {
 		if w := mon.WellFormed(got); w != "" {
@@ -208,9 +273,9 @@ func checkCase(c *core.Ctx, idx int64, fd *FnDef, args []cty.Value, fx *fixture)
 		c.Count("oracle:fixture")
 		switch {
 		case fx.err != ref.Err && !ref.Skip:
-			c.Violate(site, facetFixture, "", witness, fmt.Sprintf("fixture expects error=%v, reference says error=%v (%s)", fx.err, ref.Err, ref.Why))
+			violate(site, facetFixture, "", witness, fmt.Sprintf("fixture expects error=%v, reference says error=%v (%s)", fx.err, ref.Err, ref.Why))
 		case !fx.err && !ref.Skip && !(ref.Val.Type().Equals(fx.want.Type()) && sameValue(ref.Val, fx.want, ref.OrderFree)):
-			c.Violate(site, facetFixture, "", witness, fmt.Sprintf("fixture expects %#v, reference gives %#v", fx.want, ref.Val))
+			violate(site, facetFixture, "", witness, fmt.Sprintf("fixture expects %#v, reference gives %#v", fx.want, ref.Val))
 		}
 		// where the reference decides the case, agreement of reference and fixture (just checked) makes the
 		// comparison below cover the fixture as well; the library is held against the fixture directly
@@ -218,9 +283,9 @@ func checkCase(c *core.Ctx, idx int64, fd *FnDef, args []cty.Value, fx *fixture)
 		if ref.Skip {
 			switch {
 			case fx.err != (err != nil):
-				c.Violate(site, facetFixtureLib, class, witness, fmt.Sprintf("fixture expects error=%v, library: value %#v error %v", fx.err, got, err != nil))
+				violate(site, facetFixtureLib, class, witness, fmt.Sprintf("fixture expects error=%v, library: value %#v error %v", fx.err, got, err != nil))
 			case !fx.err && !(got.Type().Equals(fx.want.Type()) && sameValue(got, fx.want, false)):
-				c.Violate(site, facetFixtureLib, class, witness, fmt.Sprintf("fixture expects %#v, library gives %#v", fx.want, got))
+				violate(site, facetFixtureLib, class, witness, fmt.Sprintf("fixture expects %#v, library gives %#v", fx.want, got))
 			}
 		}
 	}
@@ -237,7 +302,7 @@ func checkCase(c *core.Ctx, idx int64, fd *FnDef, args []cty.Value, fx *fixture)
 		c.Count("domain:" + fd.Name + ":outside")
 		if err == nil {
 			c.Count("outcome:disagree")
-			c.Violate(site, facetOKWhereErr, class, witness, fmt.Sprintf("reference: %s; library returned %#v", ref.Why, got))
+			violate(site, facetOKWhereErr, class, witness, fmt.Sprintf("reference: %s; library returned %#v", ref.Why, got))
 			return
 		}
 		if isPanicErr {
@@ -264,22 +329,22 @@ func checkCase(c *core.Ctx, idx int64, fd *FnDef, args []cty.Value, fx *fixture)
 		if isPanicErr {
 			d = "function.PanicError; " + d
 		}
-		c.Violate(site, facetErrWhereOK, class, witness, d)
+		violate(site, facetErrWhereOK, class, witness, d)
 		return
 	}
 	if !got.IsWhollyKnown() || got.IsMarked() {
 		c.Count("outcome:disagree")
-		c.Violate(site, facetNotKnown, class, witness, fmt.Sprintf("library returned %#v; reference %#v", got, ref.Val))
+		violate(site, facetNotKnown, class, witness, fmt.Sprintf("library returned %#v; reference %#v", got, ref.Val))
 		return
 	}
 	if !sameType(got, ref.Val, ref.OrderFree) {
 		c.Count("outcome:disagree")
-		c.Violate(site, facetType, class, witness, fmt.Sprintf("library type %#v (value %#v); reference type %#v (value %#v)", got.Type(), got, ref.Val.Type(), ref.Val))
+		violate(site, facetType, class, witness, fmt.Sprintf("library type %#v (value %#v); reference type %#v (value %#v)", got.Type(), got, ref.Val.Type(), ref.Val))
 		return
 	}
-	if !sameValue(got, ref.Val, ref.OrderFree) {
+	if ref.ExactNums && !sameNumbersExactly(got, ref.Val) || !(ref.ExactNums && sameNumbersBitwise(got, ref.Val)) && !sameValue(got, ref.Val, ref.OrderFree) {
 		c.Count("outcome:disagree")
-		c.Violate(site, facetValue, class, witness, fmt.Sprintf("library %#v; reference %#v", got, ref.Val))
+		violate(site, facetValue, class, witness, fmt.Sprintf("library %#v; reference %#v", got, ref.Val))
 		return
 	}
 	c.Count("outcome:agree-value")
@@ -287,6 +352,42 @@ func checkCase(c *core.Ctx, idx int64, fd *FnDef, args []cty.Value, fx *fixture)
 	if c.WantSample() && (idx%7 == 3) {
 		c.Sample(map[string]any{"call": witness, "result": fmt.Sprintf("%#v", got), "reference": fmt.Sprintf("%#v", ref.Val)})
 	}
+	return got, ref, true, reported, argChanged, call
+}
+
+// sameNumbersExactly: two lists of numbers hold, position by position, the
+// same exact values (documented equality compares fractional numbers by their
+// shortest decimal text, which can conflate neighbours held at different precisions).
+func sameNumbersExactly(got, want cty.Value) bool {
+	gs, ws := got.AsValueSlice(), want.AsValueSlice()
+	if len(gs) != len(ws) {
+		return false
+	}
+	for i := range gs {
+		if gs[i].IsNull() || ws[i].IsNull() || gs[i].AsBigFloat().Cmp(ws[i].AsBigFloat()) != 0 {
+			return false
+		}
+	}
+	return true
+}
+
+// sameNumbersBitwise: the same exact values at the same precisions, position by position (then
+// they are trivially equal under documented equality as well, and the decimal texts need not be produced).
+func sameNumbersBitwise(got, want cty.Value) bool {
+	gs, ws := got.AsValueSlice(), want.AsValueSlice()
+	if len(gs) != len(ws) {
+		return false
+	}
+	for i := range gs {
+		if gs[i].IsNull() || ws[i].IsNull() {
+			return false
+		}
+		g, w := gs[i].AsBigFloat(), ws[i].AsBigFloat()
+		if g.Prec() != w.Prec() || g.Cmp(w) != 0 {
+			return false
+		}
+	}
+	return true
 }
 
 // sameType: exact type equality; with orderFree the result of flatten over an
